@@ -775,7 +775,16 @@ class DataAccessObject(HasGeneric[T]):
         :param state: The conversion state.
         :return: A dictionary of keyword arguments derived from the base DAO and mapping.
         """
+        # the nearest alternatively mapped DAO ancestor (to_dao scans the MRO in the same way); looking only at the
+        # direct base loses the renamed constructor arguments of classes two or more levels below the mapping
         base = self.__class__.__bases__[0]
+        for candidate in self.__class__.__mro__[1:]:
+            try:
+                if self.uses_alternative_mapping(candidate):
+                    base = candidate
+                    break
+            except Exception:
+                continue
         base_kwargs: Dict[str, Any] = {}
         if self.uses_alternative_mapping(base):
             parent_dao = base()
